@@ -190,6 +190,7 @@ def run(ctx):
             for ch in chunked(alpha, 8):
                 units.append(("list", (1_000, an, n, tuple(ch))))
     units.append(("pulse", None))
+    units.append(("data", None))
     agg = Agg()
     for r in ctx.pmap(_dispatch, units):
         agg.add(r)
@@ -256,8 +257,37 @@ def _unit_pulse(_):
     return u.result()
 
 
+DATA_CATALOGUE = ({}, {"a": None}, {"b": "x"}, {"a": None, "b": 1}, {"b": 1, "c": 2}, {"a": [1]}, {"a": [1, 2]}, {"a": {"n": None}}, {"a": {"m": 1}}, {"A": None}, {"a": ""}, {"a": 0}, {"b": None, "a": None})
+
+
+def _unit_data(_):
+    """'their data are equal': all pairs of a catalogue of data dicts (null values, same size with
+    different keys, nested, key order) on a mergeable pair of instants -- merged iff the dicts are equal"""
+    import copy
+    import json as _json
+
+    ctx = _G["ctx"]
+    emb = Emb(ctx.base, 1_000_000)
+    u = Unit()
+    for i, da in enumerate(DATA_CATALOGUE):
+        for j, db in enumerate(DATA_CATALOGUE):
+            for (s2, d2) in ((0, 1), (1, 0), (1, 2)):
+                a = emb.ev(0, 1, copy.deepcopy(da))
+                b = emb.ev(s2, d2, copy.deepcopy(db))
+                want = _json.dumps(da, sort_keys=True) == _json.dumps(db, sort_keys=True)
+                got = heartbeat_merge(a, b, 1.0) is not None
+                u.evaluations += 1
+                u.transitions += 1
+                u.states += 1
+                u.nontrivial += 1 if i != j else 0
+                if got != want:
+                    u.violation("merge:data-equality-wrong", f"heartbeat_merge(data {da}, data {db}) merged={got}; the dicts are {'equal' if want else 'different'}", {"kind": "data", "i": i, "j": j}, size=i + j)
+    u.sample({"kind": "data equality", "catalogue": [str(d) for d in DATA_CATALOGUE][:6]})
+    return u.result()
+
+
 def _dispatch(u):
-    return {"pair": _pair_unit, "list": _list_unit, "list2": _list2_unit, "pulse": _unit_pulse}[u[0]](u[1])
+    return {"pair": _pair_unit, "list": _list_unit, "list2": _list2_unit, "pulse": _unit_pulse, "data": _unit_data}[u[0]](u[1])
 
 
 def run_case(ctx, case):
@@ -271,6 +301,9 @@ def run_case(ctx, case):
         got = heartbeat_merge(emb.ev(*a), emb.ev(*b), pus / 1_000_000)
         got_t = None if got is None else of_event(emb, got)
         return {"observed": got_t, "expected": want, "violations": [] if got_t == want else [["merge-wrong", f"{got_t} != {want}"]]}
+    if case["kind"] == "data":
+        r = _unit_data(None)
+        return {"violations": [[v["key"], v["what"]] for v in r["violations"]]}
     if case["kind"] == "pulse":
         r = _unit_pulse(None)
         return {"violations": [[v["key"], v["what"]] for v in r["violations"]]}
